@@ -241,6 +241,14 @@ fn op_text(op: &Value) -> String {
     }
 }
 
+/// `x = y = n`: the program <<y = n, x = n>> of the specification written as one chained assignment
+fn chain_of(ops: &[Value]) -> Option<String> {
+    if ops.len() == 2 && ops.iter().all(|o| o["k"] == "asg" && o["op"] == "=") && ops[0]["rhs"] == ops[1]["rhs"] && ops[0]["rhs"]["k"] == "int" {
+        return Some(format!("{} = {} = {}", ops[1]["c"].as_str().unwrap(), ops[0]["c"].as_str().unwrap(), rhs_text(&ops[0]["rhs"])));
+    }
+    None
+}
+
 fn prog_text(ops: &[Value]) -> String {
     let parts: Vec<String> = ops.iter().map(op_text).collect();
     if parts.len() == 1 { parts[0].clone() } else { format!("({})", parts.join(", ")) }
@@ -407,7 +415,8 @@ fn replay(args: &[String]) -> Value {
         let progs: Vec<Vec<Value>> = case["progs"].as_array().unwrap().iter().map(|p| p.as_array().unwrap().clone()).collect();
         let allowed: Vec<&Value> = case["outcomes"].as_array().unwrap().iter().collect();
         let w = make_world(types, true);
-        let texts: Vec<String> = progs.iter().map(|p| prog_text(p)).collect();
+        let chained = case["chained"].as_bool().unwrap_or(false);
+        let texts: Vec<String> = progs.iter().map(|p| if chained { chain_of(p).unwrap_or_else(|| prog_text(p)) } else { prog_text(p) }).collect();
         let mut seen: Vec<Value> = vec![];
         for rep in 0..reps {
             let route = rep % 3;
@@ -437,7 +446,16 @@ fn replay(args: &[String]) -> Value {
                 deadlock = json!({"case": case["id"], "config": case["config"], "texts": texts, "init": case["init"], "route": route});
                 break 'cases;
             };
-            let res: Vec<Value> = results.iter().zip(&progs).map(|(r, p)| thread_outcome(p, r, &w.names)).collect();
+            let res: Vec<Value> = results.iter().zip(&progs).map(|(r, p)| {
+                if chained && chain_of(p).is_some() {
+                    // one value for the chained statement: the value of both assignments of the specification's program
+                    if let Ok(Ok(v)) = r {
+                        let one = result_json("asg", v, &w.names);
+                        return json!([one.clone(), one]);
+                    }
+                }
+                thread_outcome(p, r, &w.names)
+            }).collect();
             panics += results.iter().filter(|r| r.is_err()).count() as u64;
             let got = json!({"val": final_vals(&w), "res": res});
             if !allowed.iter().any(|a| **a == got) {
